@@ -293,11 +293,56 @@ def body_larger(ctx, kind):
                     ctx.check(item is not None and int(item.linear_index) == a, 'no intersecting cell has a lower linear index')
 
 
+def body_hull_points(ctx, kind):
+    """Points exactly on cell corners and on the middle of axis-parallel cell sides - the outer border of the dataset
+    included - on datasets whose coordinates are exact in binary: the lowest-numbered cell that touches the point."""
+    import shapely
+    from emsarray.conventions.ugrid import UGrid
+    v = int(ctx.int('variant', 0, 1))
+    if kind == 'cf1d':
+        ds = builders.cf1d(3, 4, lat=numpy.array([10.0, 11.0, 12.0]) - 11.0 * v, lon=numpy.array([0.0, 1.0, 2.0, 3.0]) - 1.0 * v)
+        cv = ds.ems
+    elif kind == 'shoc_standard':
+        jj, ii = numpy.meshgrid(numpy.arange(4.0), numpy.arange(5.0), indexing='ij')
+        ds = builders.shoc_standard(3, 4, node_x=ii * 2.0 - 4.0 * v, node_y=jj - 1.0 * v, face_x=numpy.zeros((3, 4)), face_y=numpy.zeros((3, 4)))
+        cv = ds.ems
+    else:
+        ds = builders.ugrid(kind, fill=('nan', 'attr')[v], start_index=v, **(dict(fill_value=0) if v else {}))
+        cv = UGrid(ds)
+    ref = geomref.check(ctx, ds, cv)
+    N = len(ref)
+    pts = set()
+    for p_ in ref:
+        if p_ is None:
+            continue
+        ring = list(p_.exterior.coords)
+        for a, b in zip(ring, ring[1:]):
+            pts.add((float(a[0]), float(a[1])))
+            if a[0] == b[0] or a[1] == b[1]:
+                pts.add(((a[0] + b[0]) / 2.0, (a[1] + b[1]) / 2.0))
+    ctx.check(len(pts) >= 8, 'harness: corner and side points were generated')
+    for x, y in sorted(pts):
+        pt = shapely.Point(x, y)
+        want = next((n for n in range(N) if ref[n] is not None and ref[n].intersects(pt)), None)
+        item = cv.get_index_for_point(pt)
+        ctx.check(want is not None, 'harness: a corner of a cell touches that cell')
+        if item is None:
+            ctx.check(False, 'no result only when no cell with geometry contains or touches the point')
+        else:
+            ctx.check(int(item.linear_index) == want, 'no intersecting cell has a lower linear index')
+        # ... and just outside the hull (a point moved off the dataset's bounding box) there is nothing
+    minx, miny, maxx, maxy = shapely.unary_union([p_ for p_ in ref if p_ is not None]).bounds
+    for x, y in ((minx - 1e-9, miny), (maxx + 1e-9, maxy), (minx, maxy + 1e-9), (maxx, miny - 1e-9)):
+        ctx.check(cv.get_index_for_point(shapely.Point(x, y)) is None, 'a point outside every cell yields no result')
+
+
 def PATCHES():
     return env.patched(*geo.point_predicate_patches())
 
 
 def cases(tier):
+    for kind in ('cf1d', 'shoc_standard', 'grid4', 'tqp', 'qqqtt', 'block'):
+        yield Case(f'hull-points:{kind}', body_hull_points, dict(kind=kind), max_paths=4)
     yield Case('ugrid:big:int16-encoding', body_big_mesh, dict(), max_paths=4)
     for kind in ('cf1d', 'shoc_standard', 'nonagon', 'fan9', 'poly34567'):
         yield Case(f'larger:{kind}', body_larger, dict(kind=kind), max_paths=4)
